@@ -10,14 +10,76 @@ from __future__ import annotations
 import ast
 
 from ..prog import AnalysisError, ClassInfo, FuncInfo, dotted, unparse
-from ..layout import writer_table, reader_table, ReaderEval
+from ..layout import writer_table, ReaderEval, Bits, Record, flatten
 from ..spec import gn_layouts as S
+from .. import sem
 
 PROP = "C02"
 
 
 def _base(n: str) -> str:
     return n.split("#")[0]
+
+
+class RebasingReader(ReaderEval):
+    """ReaderEval whose nested-codec results are re-based like direct slices are.
+
+    A decoder without a length guard reads `data[a:b]` at an MSB-relative position (block total unknown).  When such a
+    slice is handed to a nested decoder (GNAddress.decode(data[0:8]), TST.decode(int.from_bytes(data[8:12]))) the nested
+    leaves come back in the coordinates of the nested block; they are translated here into MSB-relative positions of the
+    enclosing block: msb = a*8 + (nested width - leaf.lsb - leaf.width).  Guarded decoders (known total) never take this
+    path."""
+
+    def _ev(self, e, fi, env):
+        if isinstance(e, ast.Call) and e.args:
+            m = fi.module
+            ent = self.prog.resolve_expr_entity(m, e.func)
+            if isinstance(e.func, ast.Attribute) and isinstance(e.func.value, ast.Name) and e.func.value.id == "cls" and fi.cls is not None:
+                ent = fi.cls.find_method(e.func.attr)
+            if isinstance(ent, FuncInfo) and ent.name in self.DEC_NAMES:
+                v = self.ev(e.args[0], fi, env)
+                if isinstance(v, Bits) and v.lsb is None and v.msb is not None and v.width is not None:
+                    self.depth += 1
+                    if self.depth > 8:
+                        raise AnalysisError("decoder recursion too deep")
+                    try:
+                        sub = self.of_method(ent, Bits(None, v.width, "bytes" if ent.name != "decode_from_int" and v.kind == "bytes" else v.kind))
+                    finally:
+                        self.depth -= 1
+                    return self._rebase(sub, v.msb, v.width)
+        return super()._ev(e, fi, env)
+
+    def _rebase(self, v, msb: int, width: int):
+        if isinstance(v, Record):
+            return Record(v.cls, {k: self._rebase(x, msb, width) for k, x in v.fields.items()})
+        if isinstance(v, tuple):
+            return tuple(self._rebase(x, msb, width) for x in v)
+        if isinstance(v, Bits):
+            if v.lsb is not None and v.width is not None:
+                nm = msb + (width - v.lsb - v.width)
+            elif v.msb is not None:
+                nm = msb + v.msb
+            else:
+                return v
+            return Bits(None, v.width, v.kind, v.signed, v.scale, nm, v.line, v.owner, v.rel, v.partial)
+        return v
+
+
+def reader_table(prog, fi: FuncInfo, total_bits=None) -> tuple:
+    """layout.reader_table evaluated with the re-basing reader: (guard bytes or None, {leaf: Bits}, guards)."""
+    rv = RebasingReader(prog)
+    kind = "int" if fi.name == "decode_from_int" else "bytes"
+    blk = Bits(0 if total_bits is not None else None, total_bits, kind)
+    if total_bits is None:
+        blk.lsb = 0 if kind == "int" else None
+    rec = rv.of_method(fi, blk)
+    tab = flatten(rec)
+    g = rv.guards.get(fi.qual)
+    tot = total_bits if total_bits is not None else (8 * g if g is not None else None)
+    for k, b in tab.items():
+        if b.lsb is None and b.msb is not None and tot is not None and b.width is not None:
+            b.lsb = tot - b.msb - b.width
+    return g, tab, rv.guards
 
 
 def check_layouts(ctx, rule_layout="C02.layout", rule_signed="C02.signed", codecs=None):
@@ -204,6 +266,35 @@ def _ctor_sites(ctx, cls_names):
     return out
 
 
+def _typed_params(P, fi, cls_name: str) -> list:
+    """Parameters of fi annotated with the class `cls_name`."""
+    return [p for p, ts in P.param_types(fi).items()
+            if any(isinstance(t, str) and t in P.classes and P.classes[t].name == cls_name for t in ts)]
+
+
+def _bytes_params(fi) -> set:
+    a = fi.node.args
+    return {x.arg for x in a.posonlyargs + a.args + a.kwonlyargs if x.annotation is not None and dotted(x.annotation) == "bytes"}
+
+
+def _enum_name(P, mod, e):
+    v = P.try_fold(mod, e)
+    return v[2] if isinstance(v, tuple) and len(v) == 3 and v[0] == "enum" else None
+
+
+def _bare_param(e, names) -> bool:
+    # expansion keeps a bare name only for a parameter that was never re-bound
+    return isinstance(e, ast.Name) and e.id in names
+
+
+def _is_mobile_flag(P, fi, e) -> bool:
+    """<MIB-typed expression>.itsGnIsMobile.value"""
+    if not (isinstance(e, ast.Attribute) and e.attr == "value" and isinstance(e.value, ast.Attribute) and e.value.attr == "itsGnIsMobile"):
+        return False
+    ts = P.expr_types(fi, e.value.value)
+    return any(isinstance(t, str) and t in P.classes and P.classes[t].name == "MIB" for t in ts)
+
+
 def check_flags_reserved_pl(ctx):
     P = ctx.prog
     sites = _ctor_sites(ctx, set(HEADER_CLASSES))
@@ -211,53 +302,100 @@ def check_flags_reserved_pl(ctx):
         if fi.name in ReaderEval.DEC_NAMES:
             continue
         fl = ctx.flows.get(fi)
+        st = fl.state_at(call)
         kws = {kw.arg: kw.value for kw in call.keywords if kw.arg}
         con = fi.short()
+        loc = f"{fi.module.rel}:{call.lineno}"
         is_copy = fi.cls is ci and (fi.name.startswith("set_") or fi.name.startswith("with_"))
         # ---- reserved fields are zero at origination (copies of a received header keep the received value)
         for rk in ("reserved", "reserved2"):
             if rk in kws:
                 v = kws[rk]
-                val = P.try_fold(fi.module, fl.xexpr(v))
-                src = unparse(fl.xexpr(v))
-                copy_of_field = src.endswith("." + rk)
+                x = fl.xexpr(v)
+                val = P.try_fold(fi.module, x)
+                copy_of_field = False
+                if isinstance(x, ast.Attribute) and x.attr == rk:
+                    ts = {t for t in P.expr_types(fi, x.value) if isinstance(t, str) and t in P.classes}
+                    copy_of_field = bool(ts) and all(ci in P.classes[t].mro() or P.classes[t] in ci.mro() for t in ts)
                 ctx.ob("C02.reserved", con, f"{ci.name}.{rk}", val == 0 or copy_of_field,
-                       f"{ci.name}({rk}={unparse(v)}) - reserved must be zero at origination", f"{fi.module.rel}:{call.lineno}")
+                       f"{ci.name}({rk}={unparse(v)}) - reserved must be zero at origination", loc)
         if ci.name != "CommonHeader" or is_copy:
             continue
         # ---- mobility flag = MSB of the flags octet
         if "flags" in kws:
-            alts = fl.alternatives(kws["flags"], fl.state_at(call))
+            alts = fl.alternatives(kws["flags"], st)
             for a in alts:
                 ok = False
                 if isinstance(a, ast.BinOp) and isinstance(a.op, ast.LShift):
-                    k = P.try_fold(fi.module, a.right)
-                    ok = k == 7 and "itsGnIsMobile" in unparse(a.left)
+                    ok = P.try_fold(fi.module, a.right) == 7 and _is_mobile_flag(P, fi, a.left)
                 elif isinstance(a, ast.BinOp) and isinstance(a.op, ast.Mult):
-                    k = P.try_fold(fi.module, a.right)
-                    k2 = P.try_fold(fi.module, a.left)
-                    ok = (k == 128 and "itsGnIsMobile" in unparse(a.left)) or (k2 == 128 and "itsGnIsMobile" in unparse(a.right))
+                    ok = (P.try_fold(fi.module, a.right) == 128 and _is_mobile_flag(P, fi, a.left)) or \
+                         (P.try_fold(fi.module, a.left) == 128 and _is_mobile_flag(P, fi, a.right))
                 ctx.ob("C02.flags", con, f"flags={unparse(kws['flags'])}", ok,
                        f"CommonHeader flags built as `{unparse(a)}`: itsGnIsMobile must occupy bit 0 = the most "
-                       f"significant bit of the flags octet (<< 7); the decoder keeps only `& 128`",
-                       f"{fi.module.rel}:{call.lineno}")
+                       f"significant bit of the flags octet (<< 7); the decoder keeps only `& 128`", loc)
         else:
             ctx.ob("C02.flags", con, "flags=<absent>", False,
-                   "CommonHeader built at origination without the mobility flag", f"{fi.module.rel}:{call.lineno}")
+                   "CommonHeader built at origination without the mobility flag", loc)
+        rqs = _typed_params(P, fi, "GNDataRequest")
+        rq = rqs[0] if len(rqs) == 1 else None
         # ---- payload length
         if "pl" in kws:
             x = fl.xexpr(kws["pl"])
             xs = unparse(x)
             val = P.try_fold(fi.module, x)
-            ok = xs.endswith(".length") or val == 0
+            ok = val == 0 or (rq is not None and sem.same(x, f"{rq}.length") and "@" not in xs)
             ctx.ob("C02.pl", con, f"pl={unparse(kws['pl'])}", ok,
-                   f"PL is `{xs}`; must be the request's payload length (or 0 for payload-less packets)",
-                   f"{fi.module.rel}:{call.lineno}")
+                   f"PL is `{xs}`; must be the request's payload length (or 0 for payload-less packets)", loc)
             if val == 0:
                 # payload-less packet types only (beacon, LS)
-                ht = unparse(fl.xexpr(kws.get("ht"))) if "ht" in kws else ""
-                ctx.ob("C02.pl", con, "pl=0:type", ("BEACON" in ht) or (".LS" in ht) or ht.endswith("LS"),
-                       f"PL=0 used for header type `{ht}`", f"{fi.module.rel}:{call.lineno}")
+                hts = {_enum_name(P, fi.module, a) for a in fl.alternatives(kws["ht"], st)} if "ht" in kws else {None}
+                ctx.ob("C02.pl", con, "pl=0:type", hts <= {"BEACON", "LS"},
+                       f"PL=0 used for header type(s) {sorted(str(h) for h in hts)}", loc)
+                # a packet without payload has no next header
+                nhs = {_enum_name(P, fi.module, a) for a in fl.alternatives(kws["nh"], st)} if "nh" in kws else {"ANY"}
+                ctx.ob("C02.origin", con, "pl=0:nh", nhs == {"ANY"},
+                       f"payload-less packet announces next header {sorted(str(h) for h in nhs)} (must be CommonNH.ANY)", loc)
+        # ---- the other Common Header fields at origination come from the request (EN 302 636-4-1 10.3.4)
+        if rq is not None:
+            for k, want in (("nh", f"{rq}.upper_protocol_entity"), ("ht", f"{rq}.packet_transport_type.header_type"),
+                            ("hst", f"{rq}.packet_transport_type.header_subtype"), ("tc", f"{rq}.traffic_class")):
+                if k not in kws:
+                    ctx.ob("C02.origin", con, k, False, f"CommonHeader built from a request without `{k}` (left at its default)", loc)
+                    continue
+                alts = fl.alternatives(kws[k], st)
+                bad = [unparse(a) for a in alts if not (sem.same(a, want) and "@" not in unparse(a))]
+                ctx.ob("C02.origin", con, k, not bad,
+                       f"{k} = {[unparse(a)[:60] for a in alts]}; must be {want} on every path", loc)
+            # MHL: the request's maximum hop limit; the constant 1 only where the packet is established to be SHB
+            if "mhl" not in kws:
+                ctx.ob("C02.origin", con, "mhl", False, "CommonHeader built from a request without `mhl`", loc)
+            else:
+                v = kws["mhl"]
+                defs = [(d.xvalue if d.xvalue is not None else d.value, d.stmt) for d in fl.reaching(v.id, st)] \
+                    if isinstance(v, ast.Name) and v.id in st.defs else [(fl.expand(v, st), call)]
+                shb = sem.want(f"{rq}.packet_transport_type.header_type == HeaderType.TSB") + \
+                    sem.want(f"{rq}.packet_transport_type.header_subtype == TopoBroadcastHST.SINGLE_HOP")
+                bad = []
+
+                def cases(val, fs):
+                    """(value, facts) for every arm of a conditional expression"""
+                    if isinstance(val, ast.IfExp):
+                        yield from cases(val.body, fs | set(sem.atoms(val.test, True)))
+                        yield from cases(val.orelse, fs | set(sem.atoms(val.test, False)))
+                    else:
+                        yield val, fs
+                for val0, stmt in defs:
+                    fs0 = sem.facts(fl, stmt) if isinstance(stmt, ast.stmt) or stmt is call else set()
+                    for val, fs in (cases(val0, fs0) if val0 is not None else [(None, fs0)]):
+                        if val is not None and sem.same(val, f"{rq}.max_hop_limit") and "@" not in unparse(val):
+                            continue
+                        if val is not None and P.try_fold(fi.module, val) == 1 and all(a in fs for a in shb):
+                            continue
+                        bad.append(unparse(val) if val is not None else "<opaque>")
+                ctx.ob("C02.origin", con, "mhl", not bad,
+                       "MHL is the request's max_hop_limit, or 1 where header type/sub-type are established as TSB/SINGLE_HOP" +
+                       (f"; other values: {bad}" if bad else ""), loc)
     # length = len(data) where data is what is handed down (BTP -> GN)
     n = 0
     for fi in P.iter_funcs():
@@ -268,104 +406,259 @@ def check_flags_reserved_pl(ctx):
                     if "length" in kws and "data" in kws:
                         n += 1
                         fl = ctx.flows.get(fi)
-                        l, d = unparse(fl.xexpr(kws["length"])), unparse(fl.xexpr(kws["data"]))
-                        ctx.ob("C02.pl", fi.short(), f"length@{unparse(kws['data'])}:{n}", l == f"len({d})",
-                               f"GNDataRequest(length={l}, data={d})", f"{fi.module.rel}:{c.lineno}")
+                        l, d = fl.xexpr(kws["length"]), fl.xexpr(kws["data"])
+                        ok = isinstance(l, ast.Call) and dotted(l.func) == "len" and len(l.args) == 1 and not l.keywords and \
+                            sem.cx(l.args[0]) == sem.cx(d) and unparse(l.args[0]) == unparse(d)
+                        ctx.ob("C02.pl", fi.short(), f"length@{unparse(kws['data'])}:{n}", ok,
+                               f"GNDataRequest(length={unparse(l)}, data={unparse(d)})", f"{fi.module.rel}:{c.lineno}")
     ctx.floor("C02.flags", 4, "CommonHeader constructions")
-    ctx.floor("C02.pl", 5)
+    ctx.floor("C02.pl", 9)
+    ctx.floor("C02.origin", 8)
 
 
-def check_assembly(ctx):
-    """Every packet handed to LinkLayer.send is Basic || Common || extended header(s) || payload, in that order."""
-    P = ctx.prog
-    router = P.cls("geonet.router.Router")
-    n = 0
-    for fi in router.methods.values():
-        fl = ctx.flows.get(fi)
-        for c in P.calls_in(fi):
-            if not (isinstance(c.func, ast.Attribute) and c.func.attr == "send" and c.args):
-                continue
-            tg = [t for t in P.call_targets(fi, c, count=False) if isinstance(t, FuncInfo)]
-            if not any(t.cls is not None and any(k.name == "LinkLayer" for k in t.cls.mro()) for t in tg):
-                continue
-            st = fl.state_at(c)
-            for alt in fl.alternatives(c.args[0], st):
-                n += 1
-                seq = _concat_operands(alt)
-                kinds = []
-                for o in seq:
-                    k = _operand_kind(P, fi, o)
-                    kinds.extend([k] if k.startswith("(") else k.split("+"))
-                ok, why = _assembly_ok(kinds)
-                ctx.ob("C02.assembly", fi.short(), f"send:{'+'.join(kinds)}"[:120], ok,
-                       f"packet = {' || '.join(kinds)} : {why}", f"{fi.module.rel}:{c.lineno}")
-    ctx.floor("C02.assembly", 12, "assembled packets")
+# --------------------------------------------------------------------------------------------
+# packet assembly
+# --------------------------------------------------------------------------------------------
+EXT = {"LongPositionVector", "GBCExtendedHeader", "TSBExtendedHeader", "GUCExtendedHeader",
+       "LSRequestExtendedHeader", "LSReplyExtendedHeader"}
 
 
 def _concat_operands(e):
     if isinstance(e, ast.BinOp) and isinstance(e.op, ast.Add):
         return _concat_operands(e.left) + _concat_operands(e.right)
-    if isinstance(e, ast.IfExp):
-        # both alternatives must be well-formed; flatten as two options is handled by caller via kinds 'ifexp'
-        return [e]
     return [e]
 
 
-def _operand_kind(P, fi, o) -> str:
+def _strip_slices(e):
+    while isinstance(e, ast.Subscript) and isinstance(e.slice, ast.Slice):
+        e = e.value
+    return e
+
+
+def _common_header_info(ctx, fi, recv) -> dict:
+    """What is known about the Common Header whose encoding is an operand: origin 'param' (a received header handed
+    to this function) / 'built' (constructed here or by a classmethod); for built ones the constant header type(s)
+    and whether PL is the constant 0 on every return."""
+    P = ctx.prog
+    if _bare_param(recv, _typed_params(P, fi, "CommonHeader")):
+        return {"origin": "param"}
+    info = {"origin": "unknown"}
+    if not isinstance(recv, ast.Call):
+        return info
+    ctors = []     # (FuncInfo context, flow, state, constructor call)
+    for t in P.call_targets(fi, recv, count=False, cha=False):
+        if isinstance(t, ClassInfo) and t.name == "CommonHeader":
+            fl = ctx.flows.get(fi)
+            ctors.append((fi, None, None, recv))
+        elif isinstance(t, FuncInfo) and t.cls is not None and t.cls.name == "CommonHeader":
+            fl2 = ctx.flows.get(t)
+            for k, s, st in fl2.exits:
+                if k == "return" and isinstance(s.value, ast.Call) and any(
+                        isinstance(x, ClassInfo) and x.name == "CommonHeader" for x in P.call_targets(t, s.value, count=False)):
+                    ctors.append((t, fl2, st, s.value))
+                elif k == "return":
+                    return info
+    if not ctors:
+        return info
+    info["origin"] = "built"
+    hts, pl0 = set(), True
+    for cf, fl2, st, c in ctors:
+        kws = {kw.arg: kw.value for kw in c.keywords if kw.arg}
+        for name, sink in (("ht", hts),):
+            alts = fl2.alternatives(kws[name], st) if (fl2 is not None and name in kws) else ([kws[name]] if name in kws else [])
+            for a in alts:
+                sink.add(_enum_name(P, cf.module, a))
+        plx = kws.get("pl")
+        plv = [P.try_fold(cf.module, a) for a in (fl2.alternatives(plx, st) if fl2 is not None else [plx])] if plx is not None else [0]
+        pl0 = pl0 and all(v == 0 for v in plv)
+    info["ht"] = hts
+    info["pl0"] = pl0
+    return info
+
+
+def _operand_kind(ctx, fi, o, info: dict) -> str:
+    P = ctx.prog
     if isinstance(o, ast.IfExp):
         t = o.test
         if isinstance(t, ast.Compare) and len(t.ops) == 1 and isinstance(t.left, ast.Constant) \
                 and isinstance(t.comparators[0], ast.Constant) and isinstance(t.ops[0], (ast.Is, ast.IsNot)):
             same = t.left.value is t.comparators[0].value
             take = o.body if (same == isinstance(t.ops[0], ast.Is)) else o.orelse
-            return "+".join(_operand_kind(P, fi, x) for x in _concat_operands(take))
-        a = "+".join(_operand_kind(P, fi, x) for x in _concat_operands(o.body))
-        b = "+".join(_operand_kind(P, fi, x) for x in _concat_operands(o.orelse))
+            return "+".join(_operand_kind(ctx, fi, x, info) for x in _concat_operands(take))
+        a = "+".join(_operand_kind(ctx, fi, x, info) for x in _concat_operands(o.body))
+        b = "+".join(_operand_kind(ctx, fi, x, info) for x in _concat_operands(o.orelse))
         return f"({a}|{b})"
-    if isinstance(o, ast.Call) and isinstance(o.func, ast.Attribute) and o.func.attr in ("encode", "encode_to_bytes"):
-        # receiver type; look through set_*/with_* copies
+    if isinstance(o, ast.Call) and isinstance(o.func, ast.Attribute) and o.func.attr in ("encode", "encode_to_bytes") \
+            and not o.args and not o.keywords:
         r = o.func.value
         ts = {t for t in P.expr_types(fi, r) if isinstance(t, str) and t in P.classes}
         if ts:
-            return "/".join(sorted(P.classes[t].name for t in ts))
+            names = sorted(P.classes[t].name for t in ts)
+            if names == ["CommonHeader"]:
+                info.setdefault("ch", _common_header_info(ctx, fi, r))
+            return "/".join(names)
         return "encode(?)"
     c = P.try_fold(fi.module, o)
     if isinstance(c, bytes):
         return f"bytes[{len(c)}]"
-    u = unparse(o)
-    if u.endswith(".sec_message"):
-        return "SEC"
-    if u.endswith(".data") or u in ("packet", "payload", "full_packet") or "[" in u:
-        return "PAYLOAD"
-    return "PAYLOAD?" + u[:30]
+    if isinstance(o, ast.Attribute) and o.attr == "sec_message":
+        b = o.value
+        ts = {P.classes[t].name for t in P.expr_types(fi, b) if isinstance(t, str) and t in P.classes}
+        from_signer = isinstance(b, ast.Call) and isinstance(b.func, ast.Attribute) and dotted(b.func.value) == "self.sign_service"
+        if from_signer or ts == {"SNSIGNConfirm"}:
+            return "SEC"
+    if isinstance(o, ast.Attribute) and o.attr == "data" and _bare_param(o.value, _typed_params(P, fi, "GNDataRequest")):
+        return "DATA"
+    if _bare_param(_strip_slices(o), _bytes_params(fi)):
+        return "RESIDUAL"
+    return "?" + unparse(o)[:30]
 
 
-def _assembly_ok(kinds):
-    if kinds and kinds[0] in ("PAYLOAD", "PAYLOAD?full_packet"):
-        return len(kinds) == 1, "pre-assembled packet passed through (checked at its assembly site)"
-    if not kinds or kinds[0] != "BasicHeader":
-        return False, "first operand must be the Basic Header"
-    rest = kinds[1:]
-    if rest == ["SEC"]:
-        return True, "Basic Header || secured packet"
-    if len(rest) == 1 and rest[0].startswith("("):
-        inner = rest[0][1:-1].split("|")
-        oks = []
-        for opt in inner:
-            oks.append(_assembly_ok(["BasicHeader"] + opt.split("+"))[0])
-        return all(oks), "conditional inner part"
+def _merge_bytes(kinds: list) -> list:
+    """adjacent constant byte strings are one run of octets"""
+    out = []
+    for k in kinds:
+        if k.startswith("bytes[") and out and out[-1].startswith("bytes["):
+            out[-1] = f"bytes[{int(out[-1][6:-1]) + int(k[6:-1])}]"
+        else:
+            out.append(k)
+    return out
+
+
+def _assembly_ok(kinds, info: dict, inner_only: bool = False):
+    """Basic || (SEC | Common || Extended [|| 4 media-dependent octets] || payload).  The payload is required exactly
+    once unless the Common Header is built with the constant PL = 0 (beacon, LS): the request's data where the Common
+    Header is built here, the received residual where the Common Header is a received one."""
+    if not inner_only:
+        if not kinds or kinds[0] != "BasicHeader":
+            return False, "first operand must be the Basic Header"
+        rest = kinds[1:]
+        if rest == ["SEC"]:
+            return True, "Basic Header || secured packet"
+        if len(rest) == 1 and rest[0].startswith("("):
+            inner = rest[0][1:-1].split("|")
+            oks = [opt == "SEC" or _assembly_ok(opt.split("+"), info, True)[0] for opt in inner]
+            return all(oks), "conditional inner part"
+    else:
+        rest = kinds
     if not rest or rest[0] != "CommonHeader":
-        return False, "second operand must be the Common Header"
+        return False, "the Common Header must follow the Basic Header"
     ext = rest[1:]
-    EXT = {"LongPositionVector", "GBCExtendedHeader", "TSBExtendedHeader", "GUCExtendedHeader",
-           "LSRequestExtendedHeader", "LSReplyExtendedHeader"}
     if not ext or ext[0] not in EXT:
-        return False, f"third operand must be an extended header / SO PV, found {ext[:1]}"
+        return False, f"an extended header / SO PV must follow the Common Header, found {ext[:1]}"
     tail = ext[1:]
-    if ext[0] == "LongPositionVector" and tail and tail[0] == "bytes[4]":
-        tail = tail[1:]      # SHB media-dependent data
-    ok = all(t.startswith("PAYLOAD") and "?" not in t for t in tail) and len(tail) <= 1
-    return ok, "Basic || Common || Extended || payload" if ok else f"unexpected trailing operands {tail}"
+    ch = info.get("ch", {"origin": "unknown"})
+    if ext[0] == "LongPositionVector":
+        if ch.get("ht") == {"BEACON"}:
+            return tail == [], "beacon: Basic || Common || SO PV" if tail == [] else f"beacon carries trailing operands {tail}"
+        ok = tail == ["bytes[4]", "DATA"]
+        return ok, "SHB: Basic || Common || SO PV || 4 media-dependent octets || payload" if ok else \
+            f"SHB needs the 4 media-dependent octets and the request's payload after the SO PV, found {tail}"
+    if ch.get("pl0") is True:
+        return tail == [], "payload-less packet (PL = 0)" if tail == [] else f"PL is 0 but the packet carries {tail}"
+    want = {"built": [["DATA"]], "param": [["RESIDUAL"]]}.get(ch.get("origin"), [["DATA"], ["RESIDUAL"]])
+    ok = tail in want
+    return ok, "Basic || Common || Extended || payload" if ok else \
+        f"payload operand(s) {tail}: expected exactly {' or '.join('+'.join(w) for w in want)} " \
+        f"(Common Header {ch.get('origin')})"
+
+
+def _timer_producers(ctx, fi: FuncInfo, pname: str) -> list:
+    """(producer FuncInfo, expression, line) for every value bound to parameter `pname` of fi: direct in-src calls and
+    threading.Timer(..., <fi>, args=[...]) wirings."""
+    P = ctx.prog
+    from . import gnutil as G
+    out = []
+    params = fi.params
+    off = 1 if fi.kind in ("method", "classmethod") and params else 0
+    if pname not in params:
+        return out
+    idx = params.index(pname) - off
+    for caller, call in P.callers_of(fi):
+        if idx < len(call.args):
+            out.append((caller, call.args[idx], call.lineno))
+        for kw in call.keywords:
+            if kw.arg == pname:
+                out.append((caller, kw.value, call.lineno))
+    for g in P.iter_funcs():
+        for c in P.calls_in(g):
+            if not G.is_timer_with_packet(P, g, c):
+                continue
+            tgt = c.args[1] if len(c.args) > 1 else next((kw.value for kw in c.keywords if kw.arg == "function"), None)
+            if tgt is None or ("func:" + fi.qual) not in P.expr_types(g, tgt):
+                continue
+            for kw in c.keywords:
+                if kw.arg == "args" and isinstance(kw.value, (ast.List, ast.Tuple)) and idx < len(kw.value.elts):
+                    out.append((g, kw.value.elts[idx], c.lineno))
+                elif kw.arg == "args":
+                    out.append((g, None, c.lineno))
+    return out
+
+
+def _check_packet(ctx, n, fi, expr, node, sink_fi, via: str, depth: int = 3):
+    """Obligations for every alternative value of the bytes expression `expr` (evaluated at `node` in fi)."""
+    P = ctx.prog
+    fl = ctx.flows.get(fi)
+    st = fl.state_at(node)
+    for alt in fl.alternatives(expr, st):
+        seq = _concat_operands(alt)
+        if len(seq) == 1 and _bare_param(seq[0], _bytes_params(fi)) and depth > 0:
+            # pre-assembled packet handed in: decided at the place(s) that produce it
+            prods = _timer_producers(ctx, fi, seq[0].id)
+            if not prods:
+                n[0] += 1
+                ctx.ob("C02.assembly", sink_fi.short(), f"send:{via}{seq[0].id}", False,
+                       f"parameter `{seq[0].id}` of {fi.name} is sent as a complete packet but no call / Timer wiring that "
+                       "provides it was found", f"{fi.module.rel}:{node.lineno}")
+            for pfi, pexpr, line in prods:
+                if pexpr is None:
+                    n[0] += 1
+                    ctx.ob("C02.assembly", sink_fi.short(), f"send:{via}{seq[0].id}<-{pfi.name}", False,
+                           "Timer argument list is not a literal list", f"{pfi.module.rel}:{line}")
+                    continue
+                _check_packet(ctx, n, pfi, pexpr, pexpr, sink_fi, f"{via}{seq[0].id}<-{pfi.name}:", depth - 1)
+            continue
+        n[0] += 1
+        info = {}
+        kinds = []
+        for o in seq:
+            k = _operand_kind(ctx, fi, o, info)
+            kinds.extend([k] if k.startswith("(") else k.split("+"))
+        kinds = _merge_bytes(kinds)
+        ok, why = _assembly_ok(kinds, info)
+        ctx.ob("C02.assembly", sink_fi.short(), f"send:{via}{'+'.join(kinds)}"[:140], ok,
+               f"packet = {' || '.join(kinds)} : {why}", f"{fi.module.rel}:{getattr(node, 'lineno', 0)}")
+
+
+def check_assembly(ctx):
+    """Every packet handed to LinkLayer.send is Basic || Common || extended header(s) || payload, in that order; the
+    to-be-signed part of a secured packet is the same without the Basic Header."""
+    P = ctx.prog
+    from . import gnutil as G
+    router = P.cls("geonet.router.Router")
+    n = [0]
+    for fi in router.methods.values():
+        fl = ctx.flows.get(fi)
+        for c in P.calls_in(fi):
+            if G.is_ll_send(P, fi, c):
+                _check_packet(ctx, n, fi, c.args[0], c, fi, "")
+                continue
+            if any(isinstance(t, ClassInfo) and t.name == "SNSIGNRequest" for t in P.call_targets(fi, c, count=False)):
+                tbs = next((kw.value for kw in c.keywords if kw.arg == "tbs_message"), None)
+                if tbs is None:
+                    continue
+                st = fl.state_at(c)
+                for alt in fl.alternatives(tbs, st):
+                    n[0] += 1
+                    info, kinds = {}, []
+                    for o in _concat_operands(alt):
+                        k = _operand_kind(ctx, fi, o, info)
+                        kinds.extend([k] if k.startswith("(") else k.split("+"))
+                    kinds = _merge_bytes(kinds)
+                    ok, why = _assembly_ok(kinds, info, inner_only=True)
+                    ctx.ob("C02.assembly", fi.short(), f"tbs:{'+'.join(kinds)}"[:140], ok,
+                           f"signed part = {' || '.join(kinds)} : {why}", f"{fi.module.rel}:{c.lineno}")
+    ctx.floor("C02.assembly", 29, "assembled packets")
 
 
 def run(ctx):
